@@ -5,14 +5,14 @@ unless count given), then restores /repo."""
 import sys, subprocess
 name, f, old, new = sys.argv[1:5]
 old = old.encode().decode('unicode_escape'); new = new.encode().decode('unicode_escape')
-p = '/repo/' + f
+p = '/tmp/mkrepo/' + f
 s = open(p).read()
 n = s.count(old)
 want = int(sys.argv[5]) if len(sys.argv) > 5 else 1
 if n < 1 or (want == 1 and n != 1):
     print(f"pattern occurs {n} times", file=sys.stderr); sys.exit(1)
 open(p, 'w').write(s.replace(old, new, want))
-d = subprocess.run(['git', '-C', '/repo', 'diff'], capture_output=True, text=True).stdout
+d = subprocess.run(['git', '-C', '/tmp/mkrepo', 'diff'], capture_output=True, text=True).stdout
 open(f'/verif/mutants/{name}.diff', 'w').write(d)
-subprocess.run(['git', '-C', '/repo', 'checkout', '--', '.'])
+subprocess.run(['git', '-C', '/tmp/mkrepo', 'checkout', '--', '.'])
 print(f"wrote mutants/{name}.diff ({len(d.splitlines())} lines)")
